@@ -751,7 +751,8 @@ class Run:
         return m
 
     def op_add(self, a1, a2):
-        e = self.pick(a1, lambda e: OS.state_of(e["obj"]) in ("transient", "detached") and e["cls"] not in ("D", "BL", "R", "O") and not e.get("retired") and
+        e = self.pick(a1, lambda e: OS.state_of(e["obj"]) in ("transient", "detached") and e["cls"] not in ("D", "BL", "R", "O") and
+                      (not e.get("retired") or (self.cfg.get("readd") and e.get("rolled_back") and e["cls"] in ("K", "T", "Node", "M", "P"))) and
                       not (e["cls"] == "B" and "delete-orphan" in self.U["cfg"]["bs"] and OS.loaded(e["obj"], "a")[1] is None))
         if e is None:
             return "skip"
@@ -762,6 +763,16 @@ class Run:
             if self.m["inspect"](e["obj"]).was_deleted:
                 return "skip"
         before_members = self.members()
+        if e.get("rolled_back"):
+            # relationships of the rolled-back object are let go of first (only the object itself is tried again)
+            for an in OS.rel_attrs(self.U, e["obj"]):
+                if OS.loaded(e["obj"], an)[0] and OS.members(OS.loaded(e["obj"], an)[1]):
+                    return "skip"
+            pk = OS.pk_of(e["obj"])
+            if pk is None or pk in self.probe()[self.tab_of(e["cls"])]:
+                return "skip"
+            e["retired"] = False
+            self.bump("probe:readd_after_rollback")
         self.session.add(e["obj"])
         self.check_add_cascade(e["obj"], before_members)
         return e["label"]
@@ -2915,6 +2926,7 @@ class Run:
         for e in self.entries():
             if before.get(e["label"]) in ("pending", "persistent", "deleted") and OS.state_of(e["obj"]) == "transient":
                 e["retired"] = True      # its attribute history still refers to the rolled-back flush; the application lets go of it
+                e["rolled_back"] = True  # (histories with cfg readd try again with the same object: documented retry pattern)
                 self.bump("probe:object_made_transient_by_rollback")
 
     def check_lifecycle(self, i, kind, before, rolled_back=False):
